@@ -4,7 +4,9 @@
 (*   the event manager writing cache/ and cache/.ready (environment),       *)
 (*   inotify delivering directory events in order but arbitrarily late,     *)
 (*   containers finishing on their own (marker file + tombstone),           *)
-(*   monitor.MonitorContainerCleanup.execute, cleanup.Cleanup.invoke,       *)
+(*   monitor.MonitorContainerCleanup.execute, cleanup.Cleanup.invoke and,   *)
+(*   beyond the listed property, the rest of the cleanup service            *)
+(*   (Cleanup.run/_sync/_add_cleanup_app/_remove_cleanup_app),              *)
 (*   restarts of the manager and starts of the node's services.             *)
 (*                                                                          *)
 (* PART 1 is a library of pure successor functions over a state record s    *)
